@@ -92,14 +92,16 @@ def coq_sample(cases, model_out, spec_out, notes, limit=160, max_len=4000, shard
     return agree, len(picked)
 
 
-def shrink_case(case, fails, payload_idx, budget=400):
+def shrink_case(case, fails, payload_idx, budget=400, seconds=90):
     """delta-debug a case line while fails(case) stays true.  Tokens that are hex payloads (or comma lists
     of payloads) are reduced: first whole records are dropped, then bytes."""
+    import time as _time
     toks = case.split(" ")
     calls = [0]
+    t_end = _time.time() + seconds        # big cases are slow to re-run: shrinking is best effort within a time budget
     def test(ts):
         calls[0] += 1
-        return calls[0] <= budget and fails(" ".join(ts))
+        return calls[0] <= budget and _time.time() < t_end and fails(" ".join(ts))
     def is_hex(t): return t == "-" or (len(t) % 2 == 0 and len(t) > 0 and re.fullmatch(r"[0-9a-f]+", t) is not None)
     for ti in sorted(payload_idx, reverse=True):
         if ti >= len(toks): continue
